@@ -102,7 +102,12 @@ impl DefaultMetricLogReader {
             };
 
             let ts_time = item.timestamp / 1000;
-            if ts_time < begin_sec || ts_time > end_sec {
+            if ts_time < begin_sec {
+                // not yet in the range: the read may start before `begin` (the index only
+                // gives the nearest known offset; a following file is read from its start)
+                continue;
+            }
+            if ts_time > end_sec {
                 return Ok((items, false)); // Outside time range
             }
 
